@@ -177,6 +177,29 @@ def run(report, tier, seed):
             return tuple(a - nd if rng.random() < 0.5 else a for a in axes)
         return rng.randrange(-nd, nd)
 
+    # ---- systematic sweep: every ordered axis tuple (each axis once, any order, negative spellings) of 3-D and 2-D
+    #      arrays, keepdims on and off, through sum / mean / prod and the reduce spellings
+    import itertools
+    sweep_shapes = [(2, 3, 2), (2, 2, 2), (3, 2)] if tier == "quick" else [(2, 3, 2), (2, 2, 2), (3, 2), (1, 2, 3), (2, 1, 2, 2)]
+    for s in sweep_shapes:
+        nd = len(s)
+        tuples = [t for k in range(2, nd + 1) for t in itertools.permutations(range(nd), k)]
+        for fname in ("sum", "mean", "prod"):
+            p = mk(s, small=fname == "prod")
+            fa = formal_array(p, 0)
+            for t in tuples:
+                ax = tuple(a - nd if rng.random() < 0.4 else a for a in t)
+                for keep in (False, True):
+                    kw = {"axis": ax}
+                    if keep:
+                        kw["keepdims"] = True
+                    ufunc = numpy.add if fname == "sum" else numpy.multiply
+                    spelling = rng.choice(["numpoly", "numpy", "method"] + (["reduce"] if fname != "mean" else []))
+                    ci = {"numpoly": lambda: getattr(numpoly, fname)(p, **kw), "numpy": lambda: getattr(numpy, fname)(p, **kw),
+                          "method": lambda: getattr(p, fname)(**kw), "reduce": lambda: ufunc.reduce(p, **kw)}[spelling]
+                    attempt(fname, f"{tuple(s)}, {kw}, spelling={spelling} [sweep]", [p], ci,
+                            lambda: getattr(numpy, fname)(fa, **kw), approx=fname == "mean")
+
     for _ in range(reps):
         # ---- sum / cumsum / mean ---------------------------------------------------------------
         for fname in ("sum", "cumsum", "mean"):
